@@ -63,8 +63,12 @@ def w_cfg(c):
     return [bool(c.get('nquads')), bool(c.get('printable')), c.get('safe', ''), list(c.get('na', DEFAULT_NA))]
 
 
+def w_execs(case):
+    return [[e['id'], e['fun'], [[p, k, v] for p, k, v in e.get('inputs', [])]] for e in case.get('execs', [])]
+
+
 def w_case(tag, case):
-    return [tag, w_cfg(case['cfg']), [w_source(s) for s in case['sources']], [w_tm(t) for t in case['doc']]]
+    return [tag, w_cfg(case['cfg']), [w_source(s) for s in case['sources']], [w_tm(t) for t in case['doc']], w_execs(case)]
 
 
 def w_doc(case):
@@ -183,6 +187,8 @@ def render_tmap(V, m, short_prop, full_prop, style, extra=''):
         body.append('%s %s' % (_p(V.template), ttl_str(m['v'])))
     elif m['k'] == 'ref':
         body.append('%s %s' % (_p(V.reference), ttl_str(m['v'])))
+    elif m['k'] == 'exec':
+        body.append('%s %s' % (_p(RML + 'functionExecution'), ttl_iri(m['v'])))
     elif m['k'] == 'quoted':
         body.append('%s %s' % (_p(V.quoted), style.idmap.get(m['v']) or ttl_iri(m['v'])))
     elif m['k'] == 'parent':
@@ -283,10 +289,22 @@ def render_tm(V, t, srcs, style, paths):
     return '%s %s .\n' % (style.idmap.get(t['id']) or ttl_iri(t['id']), ' ;\n   '.join(props))
 
 
+def render_execs(case):
+    out = []
+    for e in case.get('execs', []):
+        ins = []
+        for p, k, v in e.get('inputs', []):
+            vm = {'const': '%s %s' % (_p(RML + 'constant'), ttl_str(v)), 'ref': '%s %s' % (_p(RML + 'reference'), ttl_str(v)),
+                  'templ': '%s %s' % (_p(RML + 'template'), ttl_str(v)), 'exec': '%s %s' % (_p(RML + 'functionExecution'), ttl_iri(v))}[k]
+            ins.append('%s [ %s %s ; %s [ %s ] ]' % (_p(RML + 'input'), _p(RML + 'parameter'), ttl_iri(p), _p(RML + 'inputValueMap'), vm))
+        out.append('%s %s %s%s .\n' % (ttl_iri(e['id']), _p(RML + 'function'), ttl_iri(e['fun']), ''.join(' ;\n   ' + i for i in ins)))
+    return ''.join(out)
+
+
 def render_mapping(case, style, paths, tms=None):
     V = Vocab(style.vocab)
     srcs = {s['key']: s for s in case['sources']}
-    return ''.join(render_tm(V, t, srcs, style, paths) for t in (tms if tms is not None else case['doc']))
+    return ''.join(render_tm(V, t, srcs, style, paths) for t in (tms if tms is not None else case['doc'])) + render_execs(case)
 
 
 # ------------------------------------------------------------------ data rendering
@@ -457,6 +475,9 @@ def materialise_files(case, wd, style=None, name='m'):
     mp = name + '.ttl'
     with open(os.path.join(wd, mp), 'w', encoding='utf-8') as f:
         f.write(render_mapping(case, style, {k: ('ignored-by-file_path.csv' if k in file_paths else v) for k, v in paths.items()}))
+    if case['cfg'].get('udfs'):
+        import shutil as _sh
+        _sh.copy(os.path.join(os.path.dirname(os.path.abspath(__file__)), case['cfg'].get('udf_source', 'udfs.py')), os.path.join(wd, case['cfg']['udfs']))
     opts = {'mappings': mp}
     if sqlite_tables:
         opts['db_url'] = 'sqlite:///' + name + '.db'
@@ -515,6 +536,8 @@ def config_text(case, sections, extra=None):
         lines.append('safe_percent_encoding=%s' % c['safe'].replace('%', '%%'))
     if c.get('printable'):
         lines.append('only_printable_chars=yes')
+    if c.get('udfs'):
+        lines.append('udfs=%s' % c['udfs'])
     for k, v in (extra or {}).items():
         lines.append('%s=%s' % (k, v))
     for name, opts in sections:
